@@ -78,6 +78,41 @@ CHECKS: dict[str, dict] = {
         "components": REAL_STUB,
         "assumptions": ["the per-image reference is the library's own single-image operation applied entry by entry"],
     },
+    "C16": {
+        "batches": lambda tier: [{"engine": "e3_rollout", "label": "rollout", "profile": {}, "n_runs": 1500 if tier == "quick" else 60000, "budget_s": 150 if tier == "quick" else 1500}],
+        "rule": (
+            "seeded rollouts: n in 1..8 steps, past 1..4, 1-3 types (dynamic only / dynamic+constant / constant only, unsorted order, 1-3 channels), "
+            "d in {2,3}; model from an exact history-sensitive family (distinct integer window weights, constants, cross-type layout-position term, mod 257) "
+            "handed over eagerly / through filter_jit (sorted output) / emitting blocks in reversed or shuffled order; input crossing jit / pytree / re-insertion; "
+            "whole rollout plain / under jax.vmap / under filter_jit; aux_data counter threaded. Oracle: reference sliding window of Python lists, bit-exact, "
+            "per step input (eager) and final output per type, channel and step. distinct = hash of (model transport, outer transform, input transport, past, n, aux, "
+            "per-type dynamic/constant pattern); non-trivial = at least one transport or the aux counter is active"
+        ),
+        "components": {"real": ["ml.autoregressive_map", "ml.autoregressive_step", "MultiImage.concat/concat_inverse/expand/combine_axes", "jax.vmap / eqx.filter_jit"], "stub": ["the model (exact integer window map family)"]},
+        "assumptions": ["model outputs stay below 2^24 so float32 arithmetic is exact"],
+        "level_text": "Seeded search over rollout configurations and transports; the real autoregressive_map/step are compared bit-exactly with a reference sliding window for a model family that is injective in window order. Sampling, not proof.",
+        "level_note": "Trusted: the list-based reference window (RefWindow, 50 lines) and the model family's numpy twin.",
+        "technique": "deterministic simulation of the n-step feedback loop with transport faults on model output/input and outer jit/vmap, seeded search against a reference sliding window",
+        "design_ref": "DESIGN.md section 3 (C16)",
+    },
+    "C17": {
+        "batches": lambda tier: [
+            {"engine": "e2_batch", "label": "direct", "profile": {"mode": "direct"}, "n_runs": 2500 if tier == "quick" else 100000, "budget_s": 100 if tier == "quick" else 1200},
+            {"engine": "e2_batch", "label": "train", "profile": {"mode": "train"}, "n_runs": 500 if tier == "quick" else 20000, "budget_s": 100 if tier == "quick" else 1200},
+        ],
+        "rule": (
+            "seeded (L, B, key|None, device count in {1,2,4} dividing B, 1-3 co-batched multi-images with different type sets/orders, operands optionally "
+            "crossing jit/pytree first) for direct calls; for the train batch every get_batches call made by the real ml.train / map_loss_in_batches over 1-6 epochs "
+            "is recorded at the seam and the in-pmap loss sum|x_index - y_index| must be 0. Samples carry 8*i+channel so index tensors are recovered exactly. "
+            "distinct = hash of (mode, devices, divisibility, L, B, number of multi-images, key, transports); non-trivial = more than one device, or L not a multiple of B, or a shuffling key"
+        ),
+        "components": REAL_STUB,
+        "assumptions": ["pairing inside pmap is observed through a loss that recovers the sample index from the first channel of the first type"],
+        "level_text": "Seeded search over data-set sizes, batch sizes, keys, device lists and co-batched signatures; every call of the real get_batches (direct and as made by the real training loop over several epochs) is checked exactly against the partition/alignment oracle. Sampling, not proof.",
+        "level_note": "Trusted: the index-recovery oracle (check_call, 60 lines). The in-train model is a stub with one parameter; train, train_step, pmap, map_loss_in_batches, get_batches are real.",
+        "technique": "deterministic simulation of the training loop's batching schedule (key chain, device list, epoch sequence) with a recording seam around get_batches, seeded search against an exact partition oracle",
+        "design_ref": "DESIGN.md section 3 (C17)",
+    },
     "C18": {
         "batches": _e1("losses", {"loss": 5}, 600, 24000),
         "rule": E1_RULE,
